@@ -1,5 +1,7 @@
 package govc
 
+import "strings"
+
 func init() {
 	registerReplay([]string{"(dht/int160.T).Cmp", "(*dht/int160.T).Xor", "dht/int160.Distance", "(dht/int160.T).Distance", "(*dht/int160.T).GetBit",
 		"(*dht/int160.T).SetBit", "(*dht/int160.T).IsZero"}, "int160", "int160/int160_replay_test.go", "TestGovcReplayInt160")
@@ -7,4 +9,28 @@ func init() {
 
 func init() {
 	registerReplay([]string{"dht.crcIP", "dht.SecureNodeId", "dht.NodeIdSecure", "dht.isLocalNetwork"}, ".", "root/security_replay_test.go", "TestGovcReplaySecurity")
+}
+
+func init() {
+	registerReplay([]string{"dht/bep44.CheckIncoming"}, "bep44", "bep44/bep44_replay_test.go", "TestGovcReplayBep44")
+}
+
+// obligations whose failure is exhibited by a scheduling harness rather than by an SMT model
+// (lock-discipline obligations: the harness tries the few interleavings of the collaborator calls)
+var noModelReplay = map[string]bool{}
+
+func replayWithoutModel(o *Obligation) bool {
+	n := o.Name
+	if i := strings.LastIndexByte(n, '~'); i > 0 {
+		n = n[:i]
+	}
+	return noModelReplay[n]
+}
+
+func init() {
+	for _, n := range []string{"(*dht/bep44.Wrapper).Put#call:get-under-lock", "(*dht/bep44.Wrapper).Put#call:put-under-lock",
+		"(*dht/bep44.Wrapper).Get#call:get-under-lock", "(*dht/bep44.Wrapper).Get#call:del-under-lock"} {
+		noModelReplay[n] = true
+	}
+	registerReplay([]string{"(*dht/bep44.Wrapper).Put", "(*dht/bep44.Wrapper).Get"}, "bep44", "bep44/bep44_replay_test.go", "TestGovcReplayBep44")
 }
